@@ -18,6 +18,13 @@ CFG = {
                 assumptions=["the whole-document comparison (input definitions vs codescan.Run over the models generated from them) is the property's own observable and runs on the implementation; the model covers the property-level validation vocabulary with integer values below 10^6",
                              "go/parser reads the generated field comments; swagger generate model and codescan.Run are the two halves under test",
                              "enums, formats, $ref structure, alias / item / map-value constraints are compared on the implementation only"]),
+    "C17": dict(props="Props/C17.v", cone=["Base/Str.v", "Tools/GenServer.v", "Tools/GenServerLemmas.v", "Tools/Decimal.v", "Scan/Annot.v", "Scan/AnnotLemmas.v", "Scan/AnnotRun.v"], target="Scan/AnnotRun.vo",
+                sub="c17", report="c17.json", cases="coq-c17", quick=["-programs", "12", "-junk", "60"], thorough=["-programs", "300", "-junk", "1500"],
+                where="swagger:route header lines and items.-level default literals scanned by codescan.Run vs parse_route / typed_literal",
+                model="hand-written Gallina model of the swagger:route / swagger:operation header grammar (rxRoute + parsePathAnnotation) on single-blank ASCII lines and of the level at which default / example / enum literals are typed (Scan/Annot.v)",
+                assumptions=["PARTIAL: go/packages loading, the YAML decoder of swagger:operation bodies and ~40 regular expressions are dependencies; only the header-line grammar and literal typing are modelled, on the lines the documented syntax produces",
+                             "validity is go-openapi/validate.Spec on the JSON form of the scanned document; faithfulness is a field-by-field comparison with the abstract program the Go source was printed from (harness/cmd/scancheck/c17.go)",
+                             "absence of crashes is a search, not a theorem: hostile comment text (truncated annotations, malformed sections, YAML fragments, control characters, long lines, random unicode) is scanned in a child process (panic, fatal error and 30 s hang are observed)"]),
 }
 
 
